@@ -7,6 +7,7 @@ row).  Only reducible-transparency tactics are used: a mismatch fails fast inste
 -/
 import Decaf.Generated.Formulas
 import Decaf.Lemmas.Formulas.Tactic
+import Decaf.Lemmas.Formulas.Ladder
 
 namespace Formulas
 open Model
@@ -26,12 +27,12 @@ theorem ark_sqrt_ratio_zeta_eq (num den : ℕ) : Gen.Formulas.ark_sqrt_ratio_zet
      with_reducible rfl)
 
 /-- the top level of the minimal backend's routine (src/min_curve/invsqrt.rs `non_arkworks_sqrt_ratio_zeta`); its two
-loops (`pow_le_limbs`, `our_sqrt`) are the hand-written `powLeLimbs`, `ourSqrt` -/
+loops: both loops are translated too (Ladder.lean: `min_pow_le_limbs_eq`, `min_our_sqrt_eq`) -/
 theorem min_sqrt_ratio_zeta_eq (num den : ℕ) : Gen.Formulas.min_sqrt_ratio_zeta num den = sqrtRatioMin num den := by
   first
   | (unfold Gen.Formulas.min_sqrt_ratio_zeta; with_reducible rfl)
   | (unfold Gen.Formulas.min_sqrt_ratio_zeta sqrtRatioMin
-     simp only [min_Z]
+     simp only [min_Z, min_pow_le_limbs_eq, min_our_sqrt_eq]
      try with_reducible rfl)
 
 end Formulas
